@@ -21,7 +21,7 @@ RULE = ("a case = (entry point, arguments): every public constructor of base fun
         "[0..0 1], unit quaternion norm, finite, correct shape, never None - to 1e-9. Non-trivial: angle within 1e-6 of a "
         "special value, or axis length outside [0.5,2], or |t|>1e3, or deg, or non-default order, or tree depth>=2, or "
         "multi-valued.")
-RULE = RULE + probes.RULE_TEXT + (probes.AUG_TEXT if PROPERTY_ID in probes.AUG_PROPS else "") + probes.VARIANT_TEXT
+RULE = RULE + probes.RULE_TEXT + (probes.AUG_TEXT if PROPERTY_ID in probes.AUG_PROPS else "") + probes.VARIANT_TEXT + probes.OWN_TEXT
 ASSUMPTIONS = ["validity predicate only (class identity of results is C08's business)",
                "axis lengths in (2e-15, 1e-3) are not generated: the statement acknowledges the absolute zero threshold",
                "trnorm input is a member perturbed by at most 1e-2"]
@@ -374,7 +374,7 @@ def validate(c, site, val, kind):
 
 
 def check_case(case):
-    if case.get("kind") in ("hist", "aug", "variant"):
+    if case.get("kind") in ("hist", "aug", "variant", "own"):
         return probes.run(case, PROPERTY_ID)
     if case["kind"] == "entry":
         name = case["entry"]
@@ -411,7 +411,7 @@ def _near_special(a):
 
 
 def classify(case):
-    if case.get("kind") in ("hist", "aug", "variant"):
+    if case.get("kind") in ("hist", "aug", "variant", "own"):
         return probes.classify(case)
     lab = {"kind:" + case["kind"]: True}
     if case["kind"] == "entry":
